@@ -301,6 +301,7 @@ func (x *Exec) fullKey(h *storeHandle, key T) T {
 
 func (x *Exec) storeGet(st *State, h *storeHandle, key T) T {
 	fam, args, _ := x.classifyKey(h.Name, x.fullKey(h, key), false)
+	x.recordFam(fam, false)
 	k := fam.keyTerm(args, x.fail)
 	s := st.Worlds[h.World][h.Name]
 	opt := T{S: fmt.Sprintf("(select %s %s)", s.S, k.S), So: "OptS"}
@@ -312,6 +313,7 @@ func (x *Exec) storeGet(st *State, h *storeHandle, key T) T {
 
 func (x *Exec) storeHas(st *State, h *storeHandle, key T) T {
 	fam, args, _ := x.classifyKey(h.Name, x.fullKey(h, key), false)
+	x.recordFam(fam, false)
 	k := fam.keyTerm(args, x.fail)
 	s := st.Worlds[h.World][h.Name]
 	return T{S: fmt.Sprintf("((_ is some) (select %s %s))", s.S, k.S), So: SBool}
@@ -319,6 +321,7 @@ func (x *Exec) storeHas(st *State, h *storeHandle, key T) T {
 
 func (x *Exec) storeSet(st *State, h *storeHandle, key T, val T) {
 	fam, args, _ := x.classifyKey(h.Name, x.fullKey(h, key), false)
+	x.recordFam(fam, true)
 	k := fam.keyTerm(args, x.fail)
 	s := st.Worlds[h.World][h.Name]
 	st.Worlds[h.World][h.Name] = T{S: fmt.Sprintf("(store %s %s (some %s))", s.S, k.S, val.S), So: s.So}
@@ -329,6 +332,7 @@ func (x *Exec) storeSet(st *State, h *storeHandle, key T, val T) {
 
 func (x *Exec) storeDelete(st *State, h *storeHandle, key T) {
 	fam, args, _ := x.classifyKey(h.Name, x.fullKey(h, key), false)
+	x.recordFam(fam, true)
 	k := fam.keyTerm(args, x.fail)
 	s := st.Worlds[h.World][h.Name]
 	st.Worlds[h.World][h.Name] = T{S: fmt.Sprintf("(store %s %s none)", s.S, k.S), So: s.So}
@@ -356,6 +360,7 @@ func (x *Exec) newIterator(st *State, h *storeHandle, reverse bool, pos string) 
 	lastIsPrefix := false
 	if h.Prefix != nil {
 		fam, fixed, _ = x.classifyKey(h.Name, *h.Prefix, true)
+		x.recordFam(fam, false)
 		// a literal as the last provided segment of a string component is a byte prefix of that component
 		// (e.g. the type byte of an outgoing-tx store index), not the whole component
 		if n := len(fixed); n > 0 && fam.Segs[n-1] == "str" {
@@ -463,4 +468,21 @@ func (x *Exec) iterPos(st *State, it *OpaqueV) (T, int) {
 func (x *Exec) iterCurKey(st *State, it *OpaqueV) T {
 	pos, _ := x.iterPos(st, it)
 	return T{S: fmt.Sprintf("(itkey %s %s)", it.Data["id"].(T).S, pos.S), So: "Key"}
+}
+
+// recordFam: the key families a function reads and writes (over all explored paths, including discovery passes).
+func (x *Exec) recordFam(fam *Family, write bool) {
+	if fam == nil {
+		return
+	}
+	x.famMu.Lock()
+	defer x.famMu.Unlock()
+	if x.famReads == nil {
+		x.famReads, x.famWrites = map[string]bool{}, map[string]bool{}
+	}
+	if write {
+		x.famWrites[fam.Name] = true
+	} else {
+		x.famReads[fam.Name] = true
+	}
 }
